@@ -260,3 +260,33 @@ func firstJSONDiff(a, b string) string {
 	}
 	return strings.ReplaceAll(fmt.Sprintf("%q~%q", a[lo:hi(a)], b[lo:hi(b)]), " ", "_")
 }
+
+// PgRoundTripText: result of PgRoundTrip with the printed text readable (diagnostics).
+func PgRoundTripText(stmt string) string {
+	out := PgRoundTrip(stmt, 0, false)
+	return decodePrinted(out)
+}
+
+// HasSubLinkRightOperand: the statement has an operator expression whose RIGHT operand is an IN/ANY/ALL
+// sub-select with a test expression, e.g. 1 + (b in (select …)). libpg_query's deparser prints such an operand
+// without parentheses (known finding).
+func HasSubLinkRightOperand(stmt string) bool {
+	tree, err := pg_query.Parse(stmt)
+	if err != nil {
+		return false
+	}
+	found := false
+	var nodes []*pg_query.Node
+	for _, st := range tree.Stmts {
+		nodes = append(nodes, st.Stmt)
+	}
+	_ = pg_query.Walk(func(node *pg_query.Node) (bool, error) {
+		if e := node.GetAExpr(); e != nil && e.Rexpr != nil {
+			if sl := e.Rexpr.GetSubLink(); sl != nil && sl.Testexpr != nil {
+				found = true
+			}
+		}
+		return true, nil
+	}, nodes...)
+	return found
+}
